@@ -29,9 +29,24 @@ pub fn version(o: &Ontology) -> V {
 }
 
 pub fn dump_term(t: &HpoTerm) -> V {
-    // resolving iterators: they panic on an id that is not in the ontology
-    let _ = t.parents().count() + t.children().count() + t.all_parents().count();
-    let _ = t.genes().count() + t.omim_diseases().count() + t.orpha_diseases().count();
+    // resolving iterators: they panic on an id that is not in the ontology; and every door to the same facts
+    // must show the same facts (the term iterators against the id groups, the record iterators against the id
+    // sets) — a disagreement is a panic of the observation, which no model outcome matches
+    let term_ids = |it: &mut dyn Iterator<Item = HpoTerm>| -> Vec<u32> { sorted(it.map(|x| x.id().as_u32()).collect()) };
+    assert_eq!(term_ids(&mut t.parents()), gids(t.parent_ids()), "parents() vs parent_ids()");
+    assert_eq!(term_ids(&mut t.children()), gids(t.children_ids()), "children() vs children_ids()");
+    assert_eq!(term_ids(&mut t.all_parents()), gids(t.all_parent_ids()), "all_parents() vs all_parent_ids()");
+    assert_eq!(sorted(t.genes().map(|g| g.id().as_u32()).collect::<Vec<u32>>()), sorted(t.gene_ids().iter().map(|g| g.as_u32()).collect::<Vec<u32>>()), "genes() vs gene_ids()");
+    assert_eq!(
+        sorted(t.omim_diseases().map(|g| g.id().as_u32()).collect::<Vec<u32>>()),
+        sorted(t.omim_disease_ids().iter().map(|g| g.as_u32()).collect::<Vec<u32>>()),
+        "omim_diseases() vs omim_disease_ids()"
+    );
+    assert_eq!(
+        sorted(t.orpha_diseases().map(|g| g.id().as_u32()).collect::<Vec<u32>>()),
+        sorted(t.orpha_disease_ids().iter().map(|g| g.as_u32()).collect::<Vec<u32>>()),
+        "orpha_diseases() vs orpha_disease_ids()"
+    );
     let ic = t.information_content();
     V::T(vec![
         n(t.id().as_u32()),
@@ -54,6 +69,30 @@ pub fn dump_term(t: &HpoTerm) -> V {
 pub fn dump_onto(o: &Ontology) -> V {
     let mut terms: Vec<HpoTerm> = o.hpos().collect();
     terms.sort_by_key(|t| t.id().as_u32());
+    // the three ways to walk the terms, and the two ways to a single term, agree
+    {
+        let a: Vec<u32> = terms.iter().map(|t| t.id().as_u32()).collect();
+        let b2: Vec<u32> = sorted(o.iter().map(|t| t.id().as_u32()).collect());
+        let c2: Vec<u32> = sorted((&*o).into_iter().map(|t| t.id().as_u32()).collect());
+        assert_eq!(a, b2, "hpos() vs iter()");
+        assert_eq!(a, c2, "hpos() vs into_iter()");
+        for t in &terms {
+            let via_new = HpoTerm::try_new(o, t.id()).expect("HpoTerm::try_new on a listed term");
+            assert_eq!(via_new.name(), t.name(), "try_new vs hpos()");
+            let via_hpo = o.hpo(t.id()).expect("Ontology::hpo on a listed term");
+            assert_eq!(via_hpo.name(), t.name(), "hpo() vs hpos()");
+        }
+        // lookups by id return the record the iterators list
+        for g in o.genes() {
+            assert!(o.gene(g.id()).map_or(false, |x| x.id() == g.id() && x.name() == g.name()), "gene(id) vs genes()");
+        }
+        for g in o.omim_diseases() {
+            assert!(o.omim_disease(g.id()).map_or(false, |x| x.id() == g.id() && x.name() == g.name()), "omim_disease(id) vs omim_diseases()");
+        }
+        for g in o.orpha_diseases() {
+            assert!(o.orpha_disease(g.id()).map_or(false, |x| x.id() == g.id() && x.name() == g.name()), "orpha_disease(id) vs orpha_diseases()");
+        }
+    }
     let mut genes: Vec<_> = o.genes().collect();
     genes.sort_by_key(|g| g.id().as_u32());
     let mut omim: Vec<_> = o.omim_diseases().collect();
@@ -66,21 +105,24 @@ pub fn dump_onto(o: &Ontology) -> V {
         V::L(genes
             .iter()
             .map(|g| {
-                let _ = g.to_hpo_set(o).iter().count();
+                let via_set: Vec<u32> = sorted(g.to_hpo_set(o).iter().map(|x| x.id().as_u32()).collect());
+                assert_eq!(via_set, gids(g.hpo_terms()), "to_hpo_set() vs hpo_terms()");
                 V::T(vec![n(g.id().as_u32()), bytes(g.name().as_bytes()), ln(&gids(g.hpo_terms()))])
             })
             .collect()),
         V::L(omim
             .iter()
             .map(|g| {
-                let _ = g.to_hpo_set(o).iter().count();
+                let via_set: Vec<u32> = sorted(g.to_hpo_set(o).iter().map(|x| x.id().as_u32()).collect());
+                assert_eq!(via_set, gids(g.hpo_terms()), "to_hpo_set() vs hpo_terms()");
                 V::T(vec![n(g.id().as_u32()), bytes(g.name().as_bytes()), ln(&gids(g.hpo_terms()))])
             })
             .collect()),
         V::L(orpha
             .iter()
             .map(|g| {
-                let _ = g.to_hpo_set(o).iter().count();
+                let via_set: Vec<u32> = sorted(g.to_hpo_set(o).iter().map(|x| x.id().as_u32()).collect());
+                assert_eq!(via_set, gids(g.hpo_terms()), "to_hpo_set() vs hpo_terms()");
                 V::T(vec![n(g.id().as_u32()), bytes(g.name().as_bytes()), ln(&gids(g.hpo_terms()))])
             })
             .collect()),
